@@ -4,7 +4,7 @@ import math
 
 from rv import bridge, gen, solvercheck as SC, suite
 from rv.bridge import ALL, ANY
-from rv.core import Inconclusive
+from rv.core import Inconclusive, skippable
 from rv.refmodel import dtl, label
 
 INF = math.inf
@@ -44,9 +44,9 @@ LOSS_HEAVY = [
 def plan(tier, seed):
     if tier == "quick":
         specs = [{"kind": "plain_exh", "i": i, "n": 6, "max_obj": 3, "max_sp": 3, "ncost": 14} for i in range(6)]
-        specs += [{"kind": "plain_rand", "i": i, "count": 60, "max_obj": 6, "max_sp": 5} for i in range(4)]
-        specs += [{"kind": "super_rand", "i": i, "count": 60, "max_obj": 5, "max_sp": 3, "max_fam": 4} for i in range(6)]
-        specs += [{"kind": "deep", "i": i, "count": 140} for i in range(10)]
+        specs += [{"kind": "plain_rand", "i": i, "count": 100, "max_obj": 6, "max_sp": 5} for i in range(8)]
+        specs += [{"kind": "super_rand", "i": i, "count": 80, "max_obj": 5, "max_sp": 3, "max_fam": 4} for i in range(12)]
+        specs += [{"kind": "deep", "i": i, "count": 160} for i in range(16)]
         specs += [{"kind": "plain_exh44", "i": i, "n": 16, "costs": LOSS_HEAVY[:2]} for i in range(16)]
         return specs
     specs = [{"kind": "plain_exh", "i": i, "n": 16, "max_obj": 4, "max_sp": 3, "ncost": 20} for i in range(16)]
@@ -104,6 +104,7 @@ def judge_any(model_min, model_set, obs_any, obs_all, B, kind):
     return fails
 
 
+@skippable
 def check_case(ctx, case, report=None):
     report = report or (lambda mon, msg, **d: ctx.viol(f"C05.{mon}", case, msg, **d))
     B = bridge.Built(case)
